@@ -89,7 +89,7 @@ theorem walkTrace_SInv (e : Env) (s : St) (lh : Int) (dest : Nat) (prune : Bool)
   rcases List.mem_append.mp hx with hx | hx
   · obtain ⟨hp, ht⟩ := walkMid_boundary e s lh dest prune g W hinv hchain hs.pool hs.tables x hx
     exact SInv.of_boundary hp ht
-  · obtain ⟨hok, A, B, hsplit, _, hxe⟩ := mem_walkReadmit e s lh dest prune x hx
+  · obtain ⟨hok, A, B, hsplit, _, hxe⟩ := mem_walkRepost e s lh dest prune x hx
     obtain ⟨hp2, ht2⟩ := walkMid_boundary e s lh dest prune g W hinv hchain hs.pool hs.tables _
       (walkCore_mem_walkMid e s lh dest prune)
     have hptr := walkCore_pointer e s lh dest prune W hok
